@@ -37,6 +37,8 @@ ASSUMPTIONS = ["function bodies come from a fixed library working on the numeric
                "leaf (value 0/1); to the pinned decorator a bool is an int (its third conversion pass never fires), the model has no "
                "separate class for it: in NI lines a leaf `b:v` is handed to the real decorator as bool(v) and to the model as `i:v`, so "
                "the correspondence also states that a bool argument arrives as the integer class"]
+from .c17_twin import ASSUMPTIONS as _TWIN_ASSUMPTIONS
+ASSUMPTIONS = ASSUMPTIONS + _TWIN_ASSUMPTIONS
 PARTIAL = ["C17_inputs_single_kind: argument order is preserved when all numeric leaves are of one kind; with mixed int/float leaves the "
            "public inputs are grouped by type (finding C17-type-grouping); likewise for results of mixed kinds"]
 TEMPLATES = ["square", "sum", "each", "mixed", "twice", "fx", "fxmix", "plain", "passthrough",
@@ -428,12 +430,18 @@ def explore(ctx, extended=False, focus=None):
             ex.samples.append(run)
     for j, i in twins.items():
         judge_twins(runs[i], runs[j], parsed[i], parsed[j], ex)
+    # the same decorated call on other argument VALUES: its contribution to the constraint system must not change (c17_twin.py)
+    from . import c17_twin
+    c17_twin.twin_runs(ctx, ex, "C17", ctx.n(160, 3000) * (2 if extended else 1))
     return ex
 
 
 def replay(ctx, payload):
     """re-execute the recorded run (and its twin) on the real code, print what is observed and what the oracle says"""
     rp = payload["replay"]
+    if "twin_group" in rp:
+        from . import c17_twin
+        return c17_twin.replay(payload)
     ex = Exploration()
     o = common.run_workers([f"N|r|{json.dumps(rp['run'])}"], script="worker_snark.py")[0]
     print(o[:3000])
